@@ -394,6 +394,21 @@ class Plan:
                 cases = [self.new_case(r, vs, cfg, script, f"full:{lab}") for lab, cfg in kappa_list(gapless)]
                 self.add_group("C09", cases, "full_paths")
 
+    # -- mini corpus: every unsafe site / iterator representation once, small shapes
+    def mini(self):
+        rng = self.rng
+        decls = [("i8", [-128, -127, -3, -1, 0, 127]), ("u8", [0, 1, 2, 3]), ("i16", [-2, -1, 0, 1]),
+                 ("u64", [5, 7, 8, 9223372036854775807]), ("i8", [7])]
+        for r, reals in decls:
+            gapless = runs_of(reals) == 1
+            vs = decorate(reals, r, rng, "renames", "shuffle", "dec")
+            p = prim.Proj(r)
+            probes = sorted({p.to_model(x + d) for x in reals for d in (-1, 0, 1) if prim.tmin(r) <= x + d <= prim.tmax(r)}
+                            | {p.model_tmin(), p.model_tmax()})
+            script = make_script(vs, r, probes, rng, level="light", str_cap=12, pairs_cap=12)
+            cases = [self.new_case(r, vs, cfg, script, f"mini:{lab}") for lab, cfg in kappa_list(gapless)]
+            self.add_group("C09", cases, "mini")
+
     # -- B: configuration matrix on representative declarations (C09)
     def config_matrix(self, n_sparse):
         rng = self.rng
@@ -567,7 +582,11 @@ def make_script_large(vs, sub, r, probes_model, rng):
 def build_plan(tier, seed):
     pl = Plan(tier, seed)
     rot = [r for r in prim.REPRS if r not in QUICK_REPRS_FIXED]
-    if tier == "quick":
+    if tier == "mini":
+        # a handful of cases covering every unsafe site and iterator representation: used by `setup`
+        # (binding self-test) and as the Miri corpus
+        pl.mini()
+    elif tier == "quick":
         reprs = QUICK_REPRS_FIXED + [rot[seed % len(rot)]]
         pl.shapes(reprs, per_repr_small=110, per_repr_large=25)
         pl.full_paths()
@@ -674,6 +693,7 @@ def write_crate(pl, outdir, cases_per_bin=120, ctx_preludes=None):
             src.append(f"    {m},")
         src.append("]); }")
         open(os.path.join(outdir, "src", "bin", name + ".rs"), "w").write("\n".join(src) + "\n")
+        open(os.path.join(outdir, "src", "bin", name + ".rs.orig"), "w").write("\n".join(src) + "\n")   # for replay files
         open(os.path.join(outdir, "scripts", name + ".txt"), "w").write("\n".join(script) + "\n")
         meta["bins"].append({"name": name, "src": f"src/bin/{name}.rs", "script": f"scripts/{name}.txt",
                              "cases": bm, "main_line": main_line})
